@@ -177,7 +177,8 @@ fn validate(src: &str) -> Result<Option<Vec<Seen>>, (String, Value)> {
             }
             // what a "line" is, is only unambiguous for LF / CRLF: the renderer also breaks lines
             // at VT, FF, NEL, LS and PS. Sources containing those are judged on span bounds only.
-            if src.contains(['\u{b}', '\u{c}', '\u{85}', '\u{2028}', '\u{2029}']) {
+            let lone_cr = src.as_bytes().windows(2).any(|w| w[0] == b'\r' && w[1] != b'\n') || src.ends_with('\r');
+            if lone_cr || src.contains(['\u{b}', '\u{c}', '\u{85}', '\u{2028}', '\u{2029}']) {
                 seen.push(s);
                 continue;
             }
@@ -205,8 +206,9 @@ fn validate(src: &str) -> Result<Option<Vec<Seen>>, (String, Value)> {
                         Some(d) => {
                             let line = lines.get(es.0).copied().unwrap_or("");
                             // control characters have no rendering: compared without them
-                            let vis = |t: &str| -> String { t.chars().filter(|c| !c.is_control()).collect() };
-                            if !line.trim().is_empty() && !d.contains(line.trim_end()) && !vis(d).contains(vis(line).trim_end()) {
+                            // (and tabs are rendered as runs of blanks: compared without white space)
+                            let vis = |t: &str| -> String { t.chars().filter(|c| !c.is_control() && !c.is_whitespace()).collect() };
+                            if !line.trim().is_empty() && !d.contains(line.trim_end()) && !vis(d).contains(&vis(line)) {
                                 return Err((
                                     "rendered message does not quote the line containing the span".into(),
                                     json!({"reason": m.reason, "line": line, "display": d}),
